@@ -7,17 +7,20 @@ SPEC = dict(
     level="proof",
     harness=dict(pkg_dir="cmd/zoekt-sourcegraph-indexserver", run="TestVerifC32$",
                  files=["cmd/zoekt-sourcegraph-indexserver/zz_verif_c32_test.go"],
-                 n_quick=120, n_thorough=1500),
+                 n_quick=120, n_thorough=1200),
     runner=dict(imports=["From ZV Require Import Lib.Base Model.Cleanup."], case_type="c32case",
                 mismatch_fn="c32_mismatches", shard=200),
-    rule="generated index directories of real shards over 2-6 repository ids: simple shards (1-2 per repository, 15% a second "
+    rule="generated index directories of real shards over 2-6 repository ids: simple shards (1-4 per repository, 60% multi-shard; 15% a second "
          "shard under another name = renamed repository), 0-2 compound shards (index.Merge, 1-3 repositories, 35% tombstoned via "
-         "index.SetTombstone, overlapping with simple shards, occasionally renamed), trash with 1-2 shards per repository, mtimes "
+         "index.SetTombstone, overlapping with simple shards, occasionally renamed), trash with 1-4 shards per repository (65% trashed together = one mtime), mtimes "
          "from {now-100000, now-86401, now-86400, now-86399, now-3600, now-60, now, now+3600}, 0-2 *.tmp files, an unrelated "
          "file; random assigned subset in random order (6% of the cases with one id twice); shardMerging 65%; the real cleanup() is run twice and the directory "
-         "(files, mtimes, per-shard repository metadata incl. tombstones) observed before / after / after the second run; in 30% of "
+         "(files, mtimes, per-shard repository metadata incl. tombstones) observed before / after / after the second run; in 40% of "
          "the cases the os.Rename of one or two shard files inside moveAll is made to fail during the first run (cleanup.go mapped "
-         "through translator/fsinstrument + zzfs shim), the observed failed renames are part of the case. "
+         "through translator/fsinstrument + zzfs shim; 65% of the failures target the 2nd or a later shard of a multi-shard "
+         "repository that cleanup is about to restore or trash, i.e. after earlier shards were moved), the observed failed renames "
+         "are part of the case; the Go oracle includes the all-or-nothing clause (per repository the shards in the index / in the "
+         "trash afterwards are none or one complete prior shard set). "
          "non-trivial = >= 2 index shards, trash or compound shards present, and the first cleanup changed something.",
     trusted_base=["correspondence harness harness/overlay/cmd/zoekt-sourcegraph-indexserver/zz_verif_c32_test.go (generator, canonicalisation, Go oracle)",
                   "abstraction: shard + .meta sidecar as one unit carrying (id, name, tombstone, latest commit date) per repository; base names ordered like file names",
